@@ -259,6 +259,18 @@ std::string save_and_observe(NifFile& nif, const std::string& outp, const std::s
 		psz << (i ? "," : "") << one.str().size();
 	}
 	out << "psz=" << psz.str() << " ";
+	// the real type of every block (hex of GetBlockName), to be compared with the file's type table entries
+	{
+		std::ostringstream bn;
+		for (size_t i = 0; i < nif.blocks.size(); ++i) {
+			std::string nm = nif.blocks[i] ? std::string(nif.blocks[i]->GetBlockName()) : std::string();
+			bn << (i ? "," : "");
+			static const char* hx = "0123456789abcdef";
+			for (unsigned char ch : nm)
+				bn << hx[ch >> 4] << hx[ch & 15];
+		}
+		out << "bnames=" << bn.str() << " ";
+	}
 	out << "src=" << src << " hu2=" << (nif.HasUnknown() ? 1 : 0) << " held=" << index_summary(held) << " written=" << index_summary(g_written)
 		<< " hookonly=" << hookOnly << " hs=" << dump_hdr(nif.hdr);
 	return out.str();
